@@ -37,6 +37,13 @@ void __real_system_restart(void);
 static int c12_in_srv = 0;
 static unsigned fl_cfg_e, fl_cfg_w, fl_st_e, fl_st_w;
 
+/* abstract schedule: handlers take no virtual time, except the two busy-waits the model accounts for
+ * (500 ms after factory defaults, 500 us in supla_system_restart); real schedule: every busy-wait advances the clock */
+void __real_ets_delay_us(uint32_t us);
+static int c12_real_sched = 0;
+void __wrap_ets_delay_us(uint32_t us) {
+  if (c12_real_sched || us == 500000 || us == 500) __real_ets_delay_us(us);
+}
 void __wrap_supla_esp_gpio_state_cfgmode(void) {
   vout("CFGMODE %llu", v_now);
   __real_supla_esp_gpio_state_cfgmode();
@@ -205,7 +212,7 @@ static void run_case(int n, char **lines) {
         supla_rs_cfg[x].autoCal_step = (unsigned)f[7]; supla_rs_cfg[x].autoCal_button_request = f[8] != 0;
       }
     } else if (!strncmp(l, "ADV ", 4)) {
-      real = 1;
+      real = 1; c12_real_sched = 1;
       unsigned long long dt = strtoull(l + 4, NULL, 0), end = v_now + dt;
       while (v_now < end) {
         unsigned long long step = end - v_now > 1000 ? 1000 : end - v_now;
@@ -242,6 +249,11 @@ static void run_case(int n, char **lines) {
       if (!real) v_now = t0;
     } else if (!ds_event(l)) vout("UNKNOWN-EVENT");
     flush_cfgflash();
+    if (getenv("C12_DEBUG"))
+      for (int k = 0; k < v_board.ninput; k++)
+        vout("DBG %d last=%d cnt=%d lsc=%u armed=%d maxc=%d at=%u relay=%d", k, supla_input_cfg[k].last_state, supla_input_cfg[k].click_counter,
+             supla_input_cfg[k].last_state_change, (int)supla_input_cfg[k].timer.timer_expire, supla_input_cfg[k].max_clicks, supla_input_cfg[k].active_triggers,
+             supla_input_cfg[k].relay_gpio_id);
   }
 }
 
